@@ -434,9 +434,12 @@ fn raw_view_mismatch(view: &RawVectorMapper, m: &Bits) -> Option<String> {
             return Some(format!("RawVectorMapper.word({}) differs", i));
         }
     }
-    for &(off, w) in &[(0usize, 64usize), (1, 63), (61, 7), (0, 1), (0, 0)] {
-        if off + w <= expect.len() && unsafe { view.int(off, w) != expect.int(off, w) } {
-            return Some(format!("RawVectorMapper.int({}, {}) differs", off, w));
+    // integers of several widths at every bit offset of the first words (aligned, unaligned, straddling)
+    for off in 0..expect.len().min(200) {
+        for w in [0usize, 1, 7, 13, 32, 63, 64] {
+            if off + w <= expect.len() && unsafe { view.int(off, w) != expect.int(off, w) } {
+                return Some(format!("RawVectorMapper.int({}, {}) differs", off, w));
+            }
         }
     }
     if view.count_ones() != expect.count_ones() {
